@@ -99,13 +99,13 @@ Proof. intros Hwf Hr Hc. rewrite <- (parseval2 G K r c) by (try apply wf_idft2; 
 Lemma energy2_ft2 r c (m : list (list RC)) delta : wf_mat r c m -> (0 < r)%nat -> (0 < c)%nat ->
   energy2 O (ft2 O m delta) = (delta * delta) * (delta * delta) * (INR r * INR c) * energy2 O m.
 Proof. intros Hwf Hr Hc. unfold ft2. rewrite energy2_scale, energy2_fftshift2.
-  rewrite (parseval2 G K r c) by (try apply wf_fftshift2; assumption).
-  rewrite energy2_fftshift2. unfold nsqr; rops. ring. Qed.
+  rewrite (parseval2 G K r c) by (try apply wf_ifftshift2; assumption).
+  rewrite energy2_ifftshift2. unfold nsqr; rops. ring. Qed.
 Lemma energy2_ift2 r c (m : list (list RC)) delta_f : wf_mat r c m -> (0 < r)%nat -> (0 < c)%nat ->
   INR r * INR c * energy2 O (ift2 O m delta_f)
   = (INR c * delta_f) * (INR c * delta_f) * ((INR c * delta_f) * (INR c * delta_f)) * energy2 O m.
 Proof. intros Hwf Hr Hc. unfold ift2. ncx. rewrite (ncols_wf r c _ Hwf Hr).
-  rewrite energy2_scale, energy2_ifftshift2.
+  rewrite energy2_scale, energy2_fftshift2.
   rewrite <- (energy2_ifftshift2 m).
   rewrite <- (energy2_idft2 r c (ifftshift2 m)) by (try apply wf_ifftshift2; assumption).
   unfold nsqr; rops. rewrite <- INR_IZR_INZ. ring. Qed.
@@ -127,9 +127,9 @@ Lemma wf_map_map' {A B} (g : A -> B) r c (m : list (list A)) : wf_mat r c m -> w
 Proof. intros [Hl Hf]. split; [rewrite map_length; exact Hl|]. apply Forall_forall. intros row Hin.
   apply in_map_iff in Hin. destruct Hin as [x [<- Hx]]. rewrite map_length. rewrite Forall_forall in Hf. auto. Qed.
 Lemma wf_ft2 r c (m : list (list RC)) d : wf_mat r c m -> (0 < r)%nat -> (0 < c)%nat -> wf_mat r c (ft2 O m d).
-Proof. intros. unfold ft2. apply wf_cscale_m, wf_fftshift2, wf_dft2; try assumption. apply wf_fftshift2; assumption. Qed.
+Proof. intros. unfold ft2. apply wf_cscale_m, wf_fftshift2, wf_dft2; try assumption. apply wf_ifftshift2; assumption. Qed.
 Lemma wf_ift2 r c (m : list (list RC)) d : wf_mat r c m -> (0 < r)%nat -> (0 < c)%nat -> wf_mat r c (ift2 O m d).
-Proof. intros. unfold ift2. apply wf_cscale_m, wf_ifftshift2, wf_idft2; try assumption. apply wf_ifftshift2; assumption. Qed.
+Proof. intros. unfold ift2. apply wf_cscale_m, wf_fftshift2, wf_idft2; try assumption. apply wf_ifftshift2; assumption. Qed.
 Lemma wf_phase N d a off : wf_mat N N (phase_grid O (coordsN O N d) a off).
 Proof. pose proof (phase_grid_wf (coordsN O N d) a off) as H. rewrite coordsN_length in H. exact H. Qed.
 
